@@ -2,6 +2,7 @@
   C16 — Verifier raises no false alarms.   Property theorems only.
 -/
 import RaftWal.Proofs.VerifierReach
+import RaftWal.Proofs.VerifierCluster
 import RaftWal.Generated.Verifier
 namespace RaftWal.C16
 open RaftWal RaftWal.Verifier
@@ -74,6 +75,61 @@ theorem range_mismatch_not_corruption (n : Node) (r : Report) (hopen : n.store.c
     (hw : r.written = 0 ∨ r.written = r.expected) (hfirst : n.store.firstIndex > r.start) :
     (n.verify r).2.err = .rangeMismatch :=
   verify_range_mismatch n r hopen hw hfirst
+
+/-! ## two nodes, any histories: the per-node invariant and the verdict theorem composed -/
+
+/-- what a leader reached by ANY history writes into a new checkpoint: the range start is where its running sum starts
+    and the expected sum is the FNV chain over the entries it holds from there -/
+theorem leader_checkpoint_is_chain (opsL : List NodeOp) (cp cp' : Log) (cs : UInt64) (st : Nat) (rL : Report)
+    (hext : cp.ext = [])
+    (h : updateVerifyState cp (node0.run opsL).checksum (node0.run opsL).sumStartIdx = some (cp', cs, st, some rL)) :
+    let L := node0.run opsL
+    rL.stop = cp.index ∧
+    rL.start = (if L.sumStartIdx = 0 then cp.index else L.sumStartIdx) ∧
+    rL.expected = chain 0 (if L.sumStartIdx = 0 then [] else storeFrom L L.sumStartIdx) ∧
+    cp'.ext = encodeMeta rL.start rL.expected ∧ cp'.index = cp.index :=
+  leader_stamp opsL cp cp' cs st rL hext h
+
+/-- **no false alarm, leader and follower reached by arbitrary histories** (any batching, any truncations, restarts and
+    report deliveries before the checkpoint — leadership changes are such histories): if the follower wrote, from the
+    range start on, what the leader's sum covers, and reads the range back unchanged, its report carries no error and its
+    read sum is the leader's -/
+theorem cluster_no_false_alarm (opsL opsF : List NodeOp) (cp cp' l2 : Log) (csL csF : UInt64) (stL stF : Nat)
+    (rL r : Report) (Fv : Node)
+    (hext : cp.ext = []) (hidx : cp.index < 2 ^ 64)
+    (hstart : (node0.run opsL).sumStartIdx < 2 ^ 64)
+    (hL : updateVerifyState cp (node0.run opsL).checksum (node0.run opsL).sumStartIdx = some (cp', csL, stL, some rL))
+    (hF : updateVerifyState cp' (node0.run opsF).checksum (node0.run opsF).sumStartIdx = some (l2, csF, stF, some r))
+    (hw : (if (node0.run opsF).sumStartIdx = 0 then cp.index else (node0.run opsF).sumStartIdx) = rL.start →
+          (if (node0.run opsF).sumStartIdx = 0 then [] else storeFrom (node0.run opsF) (node0.run opsF).sumStartIdx) =
+          (if (node0.run opsL).sumStartIdx = 0 then [] else storeFrom (node0.run opsL) (node0.run opsL).sumStartIdx))
+    (hopen : Fv.store.closed = false) (hfirst : Fv.store.firstIndex ≤ r.start)
+    (hread : readRange Fv r.start (r.stop - r.start) =
+          some (if (node0.run opsL).sumStartIdx = 0 then [] else storeFrom (node0.run opsL) (node0.run opsL).sumStartIdx)) :
+    r.start = rL.start ∧ r.stop = rL.stop ∧ r.expected = rL.expected ∧
+    (Fv.verify r).2.err = .none ∧ (Fv.verify r).2.read = rL.expected :=
+  Verifier.cluster_no_false_alarm opsL opsF cp cp' l2 csL csF stL stF rL r Fv hext hidx hstart hL hF hw hopen hfirst hread
+
+/-- … and a node that lacks the beginning of that range reports ErrRangeMismatch, never corruption -/
+theorem cluster_range_mismatch (opsL opsF : List NodeOp) (cp cp' l2 : Log) (csL csF : UInt64) (stL stF : Nat)
+    (rL r : Report) (Fv : Node)
+    (hext : cp.ext = []) (hidx : cp.index < 2 ^ 64) (hstart : (node0.run opsL).sumStartIdx < 2 ^ 64)
+    (hL : updateVerifyState cp (node0.run opsL).checksum (node0.run opsL).sumStartIdx = some (cp', csL, stL, some rL))
+    (hF : updateVerifyState cp' (node0.run opsF).checksum (node0.run opsF).sumStartIdx = some (l2, csF, stF, some r))
+    (hw : (if (node0.run opsF).sumStartIdx = 0 then cp.index else (node0.run opsF).sumStartIdx) = rL.start →
+          (if (node0.run opsF).sumStartIdx = 0 then [] else storeFrom (node0.run opsF) (node0.run opsF).sumStartIdx) =
+          (if (node0.run opsL).sumStartIdx = 0 then [] else storeFrom (node0.run opsL) (node0.run opsL).sumStartIdx))
+    (hopen : Fv.store.closed = false) (hfirst : Fv.store.firstIndex > r.start) :
+    (Fv.verify r).2.err = .rangeMismatch :=
+  Verifier.cluster_range_mismatch opsL opsF cp cp' l2 csL csF stL stF rL r Fv hext hidx hstart hL hF hw hopen hfirst
+
+/-- the hypotheses are met: a leader storing two entries in one batch and a follower storing them in two -/
+theorem cluster_nonvacuous : ∃ (opsL opsF : List NodeOp) (cp cp' l2 : Log) (csL csF : UInt64) (stL stF : Nat) (rL r : Report),
+    cp.ext = [] ∧
+    updateVerifyState cp (node0.run opsL).checksum (node0.run opsL).sumStartIdx = some (cp', csL, stL, some rL) ∧
+    updateVerifyState cp' (node0.run opsF).checksum (node0.run opsF).sumStartIdx = some (l2, csF, stF, some r) ∧
+    r.written = r.expected ∧ r.written ≠ 0 :=
+  Verifier.cluster_nonvacuous
 
 -- non-vacuity: a concrete follower history reaches a state with a live running sum
 example : ∃ ops : List NodeOp, (({ resetOnDelete := true } : Node).run ops).sumStartIdx ≠ 0 :=
